@@ -226,6 +226,32 @@ fn clone_from_any_pair() {
     core::mem::forget(src);
 }
 
+/// clone_from into a target that SHARES its block with a third handle, from a source that is
+/// not on the heap: the case where "reuse my own allocation" would write into shared bytes
+// @harness name=clone_from_into_shared_target props=C01,C02,C03,C08 class=B bound="target: shared heap block of capacity 24; source: inline or static object <= 24" tier=quick fn=Clone::clone_from covers=clone_from.small_post_reachable
+#[kani::proof]
+#[kani::stub(alloc::alloc::alloc, v_alloc)]
+#[kani::stub(alloc::alloc::dealloc, v_dealloc)]
+#[kani::stub(alloc::alloc::realloc, v_realloc)]
+fn clone_from_into_shared_target() {
+    arm_covers();
+    let (rd, dg) = any_heap_fixed(24);
+    kani::assume(dg.rc >= 2);
+    let src_static: bool = kani::any();
+    let (rs, sg) = if src_static { any_static(24) } else { any_inline() };
+    let (mut dst, src) = (LeanString(rd), LeanString(rs));
+    let fd = Frame::snapshot(&dst.0, &dg);
+    let fs = Frame::snapshot(&src.0, &sg);
+    dst.clone_from(&src);
+    obl!(fd.old_block_intact(dg.rc - 1), "clone_from.shared_target_block_untouched_rc_minus_one", "C02,C03");
+    obl!(fs.same_bits(&dst.0) && fs.same_bits(&src.0), "clone_from.small_target_is_bitwise_source", "C01,C08");
+    obl!(fs.static_untouched(), "clone_from.small_static_source_untouched", "C10");
+    obl!(fd.no_alloc_calls(), "clone_from.small_no_alloc", "C08");
+    cov!(true, "clone_from.small_post_reachable");
+    core::mem::forget(dst);
+    core::mem::forget(src);
+}
+
 // ---------------------------------------------------------------------------------------
 // delegation contracts
 // ---------------------------------------------------------------------------------------
